@@ -7,14 +7,15 @@ line-protocol handler for the thread model (C18)
 `thr_trace <p> <a> <b> <objects> <ops> <schedule>`
   * `<objects>`: `|`-separated shared point objects `x,y,z,ord,gen,pre` (`ord` = `N` or an integer, `gen` = 0/1,
     `pre` = `E`: `__precompute` is `[]`, `F`: the complete table is already there); object ids are positions
-  * `<ops>`: `|`-separated, one operation per thread: `name:self[:other][:k]` with `name` one of
+  * `<ops>`: `|`-separated, one entry per thread; an entry is one operation or several joined by `+` (run one after the
+    other by that thread: `Prog.seqList`); an operation is `name:self[:other][:k]` with `name` one of
     `x y scale to_affine double neg eq add mul rmul ne radd getstate maybe_precompute from_affine mul_add`
   * `<schedule>`: comma-separated thread ids (`-` = empty); every entry lets that thread perform its next
     load / store of a shared field
 `thr_trace_k <p> <a> <b> <objects> <keys> <ops> <schedule>`: the same with key objects (ops `key_verifies:kid:G:hash:r:s`,
 `key_sign:G:hash:k:d`, `key_precompute:kid:newObj:lazy`, `key_raw:kid`, `key_compressed:kid`)
 answer: `ok <heap>;<heap>;… # <result>|<result>|…` — the shared cells after start-up and after every step, then the
-result of every thread (`-` if it has not returned).
+result of every thread (`-` if it has not returned; the results of a thread with several operations joined by `+`).
 -/
 namespace ThreadsWire
 open Wire Curve ThreadProgs Threads Access
@@ -116,15 +117,20 @@ def showOut : Res Out → String
   | .ok (.state c t) => s!"s{c.1},{c.2.1},{c.2.2}/{showTable t}"
   | .ok (.pair a b) => s!"p{a},{b}"
 
-def showResult (t : Thread Cell Val (Res Out)) : String :=
+def showResult (t : Thread Cell Val (List (Res Out))) : String :=
   match t.prog with
-  | .ret r => showOut r
+  | .ret rs => "+".intercalate (rs.map showOut)
   | _ => "-"
+
+/-- the program of one thread: its operations (joined by `+`) one after the other -/
+def parseThread (info : Nat → ObjInfo) (t : String) : Option (Prog Cell Val (List (Res Out))) := do
+  let ps ← (t.splitOn "+").mapM (parseOp info)
+  some (Prog.seqList ps)
 
 def dummyC1 : Cell → Val := fun _ => .table []
 
 def runTrace (objs : List ObjSpec) (nkeys : Nat := 0) :
-    Cfg Cell Val (Res Out) → List Nat → List String → List String × Cfg Cell Val (Res Out)
+    Cfg Cell Val (List (Res Out)) → List Nat → List String → List String × Cfg Cell Val (List (Res Out))
   | c, [], acc => (acc.reverse, c)
   | c, i :: rest, acc =>
     let c' := step dummyC1 c i
@@ -136,9 +142,9 @@ def handle (toks : List String) : Option String :=
       let c ← CurveWire.parseCurve3 p a b
       let objs ← (objs.splitOn "|").mapM (parseObj c)
       let info := infoOf objs
-      let progs ← (ops.splitOn "|").mapM (parseOp info)
+      let progs ← (ops.splitOn "|").mapM (parseThread info)
       let sched ← if sched = "-" then some [] else (sched.splitOn ",").mapM (·.toNat?)
-      let c0 : Cfg Cell Val (Res Out) := ⟨initHeap objs, progs.map fun p => ⟨p, allAny, fun _ => True⟩⟩
+      let c0 : Cfg Cell Val (List (Res Out)) := ⟨initHeap objs, progs.map fun p => ⟨p, allAny, fun _ => True⟩⟩
       let (states, cfin) := runTrace objs 0 c0 sched [showHeap objs c0.heap]
       some ("ok " ++ ";".intercalate states ++ " # " ++ "|".intercalate (cfin.thr.map showResult))
   | ["thr_trace_k", p, a, b, objs, keys, ops, sched] => do
@@ -148,9 +154,9 @@ def handle (toks : List String) : Option String :=
       let objs ← (objs.splitOn "|").mapM (parseObj c)
       let keys ← (keys.splitOn ",").mapM (·.toNat?)
       let info := infoOf objs
-      let progs ← (ops.splitOn "|").mapM (parseOp info)
+      let progs ← (ops.splitOn "|").mapM (parseThread info)
       let sched ← if sched = "-" then some [] else (sched.splitOn ",").mapM (·.toNat?)
-      let c0 : Cfg Cell Val (Res Out) := ⟨initHeap objs keys, progs.map fun p => ⟨p, allAny, fun _ => True⟩⟩
+      let c0 : Cfg Cell Val (List (Res Out)) := ⟨initHeap objs keys, progs.map fun p => ⟨p, allAny, fun _ => True⟩⟩
       let (states, cfin) := runTrace objs keys.length c0 sched [showHeap objs c0.heap keys.length]
       some ("ok " ++ ";".intercalate states ++ " # " ++ "|".intercalate (cfin.thr.map showResult))
   | _ => none
